@@ -6,6 +6,7 @@ import Adc.Contraction
 import Adc.SpinSplit
 import Adc.Expand
 import Adc.Series
+import Adc.Scaling
 /- Line-protocol driver: one JSON request per line on stdin, one JSON answer per line on stdout. -/
 open Lean Adc Adc.Wire
 
@@ -168,6 +169,14 @@ def handle (j : Json) : P Json := do
     let r := expandTaylor a (← (← fld j "order").getNat?) mn
     pure (Json.mkObj [("r", Json.arr (r.map fun (c, ls) => Json.arr #[jRat c,
       Json.arr (ls.map fun l => Json.arr (l.map fun (x : Nat) => (x : Json)).toArray).toArray]).toArray)])
+  | "scaling" =>     -- C16: contracted/target split and scaling of one contraction step
+    let ops ← (← arr (← fld j "ops")).toList.mapM pIdxs
+    let tt ← pIdxs (← fld j "tt")
+    let ext ← pIdxs (← fld j "ext")
+    let ct := stepCT ops tt ext
+    let sc := stepScaling ops (tt ++ ext)
+    let jS (s : Scal) : Json := Json.arr #[s.total, s.gen, s.virt, s.occ]
+    pure (Json.mkObj [("contracted", jIdxs ct.1), ("target", jIdxs ct.2), ("comp", jS sc.1), ("mem", jS sc.2)])
   | _ => throw s!"unknown op {op}"
 
 partial def loop (h : IO.FS.Stream) (out : IO.FS.Stream) : IO Unit := do
